@@ -5,11 +5,18 @@ import (
 	"errors";
 	"io";
 	"context";
+	"time";
 
 	pb "github.com/marekgalovic/anndb/protobuf";
 	"github.com/marekgalovic/anndb/cluster";
 
 	log "github.com/sirupsen/logrus";
+)
+
+const membershipChangeTimeout time.Duration = 10 * time.Second
+
+var (
+	MembershipChangeNotAppliedErr error = errors.New("Membership change was not applied in time")
 )
 
 type NodesManager struct {
@@ -45,7 +52,11 @@ func (this *NodesManager) ListNodes() map[uint64]string {
 }
 
 func (this *NodesManager) AddNode(id uint64, address string) (map[uint64]string, error) {
-	if err := this.zeroGroup.ProposeJoin(id, address); err != nil {
+	err := this.proposeUntilApplied(
+		func() error { return this.zeroGroup.ProposeJoin(id, address) },
+		func() bool { _, exists := this.clusterConn.Nodes()[id]; return exists },
+	)
+	if err != nil {
 		return nil, err
 	}
 
@@ -55,7 +66,32 @@ func (this *NodesManager) AddNode(id uint64, address string) (map[uint64]string,
 }
 
 func (this *NodesManager) RemoveNode(id uint64) error {
-	return this.zeroGroup.ProposeLeave(id)
+	return this.proposeUntilApplied(
+		func() error { return this.zeroGroup.ProposeLeave(id) },
+		func() bool { _, exists := this.clusterConn.Nodes()[id]; return !exists },
+	)
+}
+
+// A membership proposal is dropped without an error when another membership
+// change is still pending or when there is no leader at the moment. Propose
+// until the change is applied on this node, so that the caller is only
+// answered once the change has really been made.
+func (this *NodesManager) proposeUntilApplied(propose func() error, applied func() bool) error {
+	deadline := time.Now().Add(membershipChangeTimeout)
+	for {
+		if err := propose(); err != nil {
+			return err
+		}
+		for i := 0; i < 20; i++ {
+			if applied() {
+				return nil
+			}
+			time.Sleep(50 * time.Millisecond)
+		}
+		if time.Now().After(deadline) {
+			return MembershipChangeNotAppliedErr
+		}
+	}
 }
 
 func (this *NodesManager) tryJoin(ctx context.Context, address string) error {
